@@ -349,7 +349,12 @@ class Cmd:
         if self.names_only:
             a.append("-s")
         if self.deps:
-            a += ["-d" if self.deps[1].startswith("makefile") else "-i", self.deps[0]]
+            flag = "-d" if self.deps[1].startswith("makefile") else "-i"
+            paths = [self.deps[0]] if isinstance(self.deps[0], str) else list(self.deps[0])
+            if len(paths) > 1:
+                a.append("-p")   # several dependency files: each names its own share of the extras
+            for dp in paths:
+                a += [flag, dp]
         for x in self.extras:
             a += ["-x", x]
         a += self.file_outs()
